@@ -458,7 +458,7 @@ C15_ExportReplay_C ==
 (* Level-I frame conditions (drift, not a property): which part of the state an operation may touch *)
 D_FrameStorage_A == Acting /\ Has2 /\ E.op \in {"Update", "Resolve", "Unstage", "Export", "Replay", "Snapshot", "Refresh", "Reload", "ReloadUntil"}
 D_FrameStorage_C == Post.items = pre.items
-D_FrameMemory_A == Acting /\ Has2 /\ E.op \in {"Meld", "Copy"}
+D_FrameMemory_A == Acting /\ Has2 /\ E.op \in {"Meld", "Copy", "Foreign"}
 D_FrameMemory_C ==
     /\ Post.trees = pre.trees /\ Post.status = pre.status /\ Post.heads = pre.heads
     /\ Post.staging = pre.staging /\ Post.stage = pre.stage /\ View(Post) = View(pre)
@@ -497,6 +497,8 @@ X_MeldStep_C ==
     \* every valid pack named by a block the source has applied (such packs are indexed by the source)
     /\ \A b \in sd.ablocks : \A i \in sd.items : (i.ok /\ i.kind = "pack" /\ i.name \in b.packs) => i \in DPost.items
     /\ \A i \in NewItems : i \in sd.items
+    \* items that are neither blocks nor packs are forwarded too (write-once: an existing key keeps its bytes)
+    /\ \A i \in sd.items : i.kind = "other" => \E j \in DPost.items : j.key = i.key
 \* unstage leaves exactly the committed part of every tree
 X_UnstageStep_A == Op("Unstage") /\ OkRes /\ Has2
 X_UnstageStep_C ==
